@@ -290,6 +290,13 @@ def hide_placeholders(run, model, rule="C20.filter"):
                     if a2[0] == "op" and a2[1] in ("cmp:NotIn", "cmp:In") and (a2[2][0] == ("const", repr(name)) or (var is not None and a2[2][0] == var)) and "parameters" in show(a2[2][1]) and (a2[1] == "cmp:NotIn") == pol:
                         if gg.necessary([flow.cfg.entry], [n.id], (a, pol)):
                             ok = True
+                            # all the parameters of the condition, as inspect.signature reports them (keyword-only
+                            # ones and those of a wrapped callable included) -- on every path
+                            cont = a2[2][1]
+                            subs_ = list(subterms(cont))
+                            sig_ok = any(s_[0] == "attr" and s_[2] == "parameters" and s_[1][0] == "call" and s_[1][1] == ("attr", ("module", "inspect"), "signature") and ("param", fi.params[0]) in (list(s_[1][2]) + [v_ for _, v_ in s_[1][3]]) for s_ in subs_)
+                            if (not sig_ok or any(s_[0] == "phi" for s_ in subs_) or cont[0] == "phi") and bad is None:
+                                bad = "whether the condition names `%s` is looked up in %s, not in the parameters inspect.signature reports for the condition: a keyword-only parameter (or the parameters of a wrapped callable) is not seen, and the value is hidden although the condition names it" % (name, show(cont, 90))
             if not ok and bad is None:
                 bad = "`%s` is removed regardless of whether the condition names it" % name
         run.check(bad is None, rule, "%s:%s" % (fi.qual, name), "hidden unless the condition has a parameter of that name; removed from a copy", bad or "", fi.loc(hits[0][0]) if hits else fi.loc())
@@ -651,3 +658,45 @@ def scan_bounds(run, model, rule="C07.scan-bounds"):
             hi_ok = isinstance(hi, ast.Call) and isinstance(hi.func, ast.Name) and hi.func.id == "len" and len(hi.args) == 1 and isinstance(hi.args[0], ast.Name) and hi.args[0].id == seq
             run.check(hi_ok, rule, construct, "the scan towards the end of the file includes its last line", "`%s` stops before the last line of `%s`: a decorator whose text ends on the last line of the file is cut short" % (src_of(sub.iter), seq), fi.loc(sub), None, src_of(sub.iter))
     return count
+
+
+def bare_at_prefix(run, model, rule="C07.layout-prefix"):
+    """A source line is not taken for the start of a decorator because it starts with ``@`` alone: a continuation line
+    of a condition may start with the matrix-multiplication operator (``@ weights``, as code formatters break it).
+    The character after ``@`` has to be looked at (the regular expression of the library asks for an identifier
+    start).  Counted: the string tests of ``inspect_decorator`` and of the helpers it calls."""
+    fi = model.func("_represent.inspect_decorator")
+    todo, funcs = [fi], []
+    while todo:
+        g = todo.pop()
+        if g in funcs:
+            continue
+        funcs.append(g)
+        gfl = get_flow(model, g)
+        for n in gfl.cfg.nodes:
+            for call, c, a in calls_in(n):
+                cf = fi_of_term(model, gfl.term(call.func, n))
+                if cf is not None and cf.module.name == "_represent" and cf.cls is None and cf not in funcs:
+                    todo.append(cf)
+    count = 0
+    for g in funcs:
+        parents = {}
+        for p in ast.walk(g.node):
+            for ch in ast.iter_child_nodes(p):
+                parents[id(ch)] = p
+        for sub in ast.walk(g.node):
+            bare = False
+            if isinstance(sub, ast.Call) and isinstance(sub.func, ast.Attribute) and sub.func.attr == "startswith" and sub.args:
+                a0 = sub.args[0]
+                lits = [a0] if isinstance(a0, ast.Constant) else (list(a0.elts) if isinstance(a0, (ast.Tuple, ast.List)) else [])
+                bare = any(isinstance(x, ast.Constant) and x.value == "@" for x in lits)
+            if isinstance(sub, ast.Compare) and len(sub.ops) == 1 and isinstance(sub.ops[0], ast.Eq) and any(isinstance(x, ast.Constant) and x.value == "@" for x in [sub.left, sub.comparators[0]]):
+                bare = True
+            if not bare:
+                continue
+            count += 1
+            par = parents.get(id(sub))
+            refined = isinstance(par, ast.BoolOp) and isinstance(par.op, ast.And)
+            run.check(refined, rule, "%s:%s" % (g.qual, src_of(sub, 40)), "the `@` test is refined by a further test of the same line", "a line counts as the start of a decorator because it starts with `@` alone (`%s`): a continuation line of the condition that starts with the matrix-multiplication operator ends the decorator text early, and a SyntaxError replaces the violation" % src_of(sub, 50), g.loc(sub), None, src_of(sub, 50))
+    if count == 0:
+        run.ok(rule, fi.qual, "no line is classified by a bare `@` prefix", fi.loc())
